@@ -7,10 +7,43 @@
    ka kb = 0 constant / 1 variable on tape A / 2 variable on tape B ;
    (19 10 ty p r (x ..) (a b c d)) f1_score / mean / variance / 2x2 determinant of linear_algebra at
    the user type (and, at build time, every linear_algebra routine instantiated at the non-Copy Rat).
+   (19 11 tag fn abits bbits) numeric::extra traits of f32 / f64 (sqrt exp ln sin cos by value / by
+   reference, pow in four forms, pi) against the std methods ; (19 12 ty (x ..) (rows cols data) p r)
+   mean / variance / the covariance entry points / f1_score at NON-FIELD element types (ty 2
+   Wrapping<i64>, 3 the user-defined whole-number type Whole, 4 i64 on small inputs; also 0 1):
+   a / n is the type's own truncating division, so a / n and a * (1 / n) differ ;
+   (19 13 ty (d ..) (v ..) (rows cols data)) from_diagonal, euclidean_length (tensor, matrix column and
+   row), the three from_numeric owned iterators, Trace::pi / Record::pi at Rat / Fp.
    tag: 0 u8 1 i8 2 u16 3 i16 4 u32 5 i32 6 u64 7 i64 8 u128 9 i128 10 usize 11 isize 12 f32
    13 f64 ; w: 0 plain 1 Wrapping 2 Saturating ; ty: 0 Rat 1 Fp 2 Wrapping<i64>."""
+from tools import vlib, gen_arith
 from tools.vlib import sx, MAXU
 from tools.props.c03 import value, values, nonzero
+
+TRUSTED = [
+    "tools/gen_arith.py (mini-Rust -> Gallina translator for the FromUsize impls of src/numeric.rs; see notes/GEN.md)",
+]
+
+
+def pre_proof(cov):
+    """Regenerates coq/theories/Gen/ArithNumeric.v (+ Arith.v) from <REPO>/src, so that
+    C19_generated_from_usize_matches_model is re-proved about the macros as they are NOW."""
+    global _GEN_FAILURE
+    st, _GEN_FAILURE = gen_arith.regenerate_and_prove(["theories/Proofs/GenNumericP.vo"])
+    cov["translator"] = {k: st[k] for k in ("repo", "targets", "definitions", "not_translated", "changed") if k in st}
+    cov["translator"]["equivalence_proofs"] = "fail" if _GEN_FAILURE else "ok"
+
+
+_GEN_FAILURE = None
+
+
+def extra(tier, seed, cov):
+    """the verdict of the generated-equals-model proofs, taken under the build lock in pre_proof
+    (the proof layer reports the same failure unless a concurrent run replaced the Gen files)"""
+    if _GEN_FAILURE:
+        return [("generated-equivalence", {"property": "C19", "kind": "proof layer: a definition regenerated from the Rust source "
+                                           "no longer equals the hand-written model function", "repo": vlib.REPO, **_GEN_FAILURE})]
+    return []
 
 THEOREMS_FILE = "C19"
 BITS = {0: (8, False), 1: (8, True), 2: (16, False), 3: (16, True), 4: (32, False), 5: (32, True),
@@ -212,6 +245,46 @@ def gen(tier, rng):
                             continue
                         b = divisor(ty) if op == 3 else value(ty, rng)
                         yield sx([19, 9, ty, op, ka, value(ty, rng), kb, b])
+    # ==== session 3 additions, kept LAST (the random stream above is unchanged)
+    # ---- division-bearing routines at element types that are not fields
+    def wvalue(ty):
+        if ty in (0, 1):
+            return value(ty, rng)
+        if ty == 4:
+            return rng.randrange(-40, 41)
+        if ty == 3:
+            return rng.choice([rng.randrange(-40, 41), rng.randrange(-10 ** 6, 10 ** 6), rng.randrange(-2 ** 70, 2 ** 70)])
+        return rng.choice([rng.randrange(-40, 41), rng.randrange(-40, 41), value(2, rng)])
+    for rep in range(2500 if quick else 30000):
+        ty = rng.choice([2, 2, 3, 3, 4, 4, 0, 1])
+        rows, cols = rng.randrange(1, 6), rng.randrange(1, 5)
+        if rep < 40:
+            rows, cols = rng.choice([(2, 2), (4, 2), (2, 4), (3, 3), (5, 1), (1, 5)])
+        xs = [wvalue(ty) for _ in range(rng.randrange(1, 8))]
+        data = [wvalue(ty) for _ in range(rows * cols)]
+        p_, r_ = wvalue(ty), wvalue(ty)
+        while ty in (2, 4) and (p_ + r_) % 2 ** 64 == 0:
+            r_ = wvalue(ty)
+        yield sx([19, 12, ty, xs, [rows, cols, data], p_, r_])
+    # the seed demo's data: 4 samples of 2 features
+    for ty in (2, 3, 4):
+        yield sx([19, 12, ty, [2, 4, 6, 8], [4, 2, [2, 1, 4, 3, 6, 2, 8, 6]], 3, 5])
+        yield sx([19, 12, ty, [1, 3, 2, 6], [2, 4, [2, 4, 6, 8, 1, 3, 2, 6]], 7, 2])
+    # ---- routines nothing else instantiates at the user types
+    for _ in range(600 if quick else 8000):
+        ty = rng.randrange(2)
+        rows, cols = rng.randrange(1, 5), rng.randrange(1, 5)
+        yield sx([19, 13, ty, values(ty, rng.randrange(1, 5), rng), values(ty, rng.randrange(1, 6), rng),
+                  [rows, cols, values(ty, rows * cols, rng)]])
+    # ---- floats: the extra traits against the std methods
+    for _ in range(1500 if quick else 30000):
+        tag = rng.choice([12, 13])
+        sp, bits = (specials32, 32) if tag == 12 else (specials64, 64)
+        a = rng.choice(sp) if rng.random() < 0.3 else rng.randrange(2 ** bits)
+        b = rng.choice(sp) if rng.random() < 0.3 else rng.randrange(2 ** bits)
+        yield sx([19, 11, tag, rng.randrange(6), a, b])
+    for tag in (12, 13):
+        yield sx([19, 11, tag, 6, 0, 0])
 
 
 def nontrivial(case, model_out):
